@@ -796,6 +796,12 @@ static void dumpFunction(Ctx &C, const FunctionDecl *FD, const std::string &tmpl
   BO.AddInitializers = true;
   BO.AddCXXDefaultInitExprInCtors = true;
   BO.PruneTriviallyFalseEdges = false;
+  if (FD->isDependentContext()) {
+    // clang's CFG builder is not robust on implicit destructors / initialisers of dependent types
+    BO.AddImplicitDtors = false;
+    BO.AddInitializers = false;
+    BO.AddCXXDefaultInitExprInCtors = false;
+  }
   std::unique_ptr<CFG> G = CFG::buildCFG(FD, FD->getBody(), C.AC, BO);
   if (!G) {
     F["nocfg"] = true;
